@@ -1,7 +1,8 @@
 import SfntV.Model.Faults
+import SfntV.Model.FaultsParser
 
 namespace SfntV.Drive.Faults
-open SfntV SfntV.Header SfntV.Faults
+open SfntV SfntV.Header SfntV.Faults SfntV.Parser SfntV.FaultsParser
 
 /-- `tabs=<namehex>:<length or ->,...`; the data is `length` zero bytes (only counts matter) -/
 def parseTabLens (s : String) : Option (List Entry) :=
@@ -74,6 +75,80 @@ for the padding after the last table (`-`) -/
 @[noinline] def runExpect (lastEnd : Nat) (ks : List Nat) : String :=
   "".intercalate (ks.map fun k => if k < lastEnd then "EE" else "--")
 
+/-! ### parser level -/
+
+def mkOracle (chunks : List Nat) : Oracle where
+  give i w a :=
+    let c := if chunks.isEmpty then w else chunks.getD (i % chunks.length) 1
+    max 1 (min c (min w a))
+  pos := by
+    intro i w a hw ha
+    simp only
+    omega
+
+def parseOp (s : String) : Option Op :=
+  match s.splitOn ":" with
+  | ["seek", n] => n.toNat?.map Op.seek
+  | ["discard", n] => n.toNat?.map Op.discard
+  | ["bytes", n] => n.toNat?.map Op.bytes
+  | ["read", n] => n.toNat?.map Op.read
+  | ["u8"] => some .u8
+  | ["u16"] => some .u16
+  | ["i16"] => some .i16
+  | ["u32"] => some .u32
+  | ["u16s"] => some .u16s
+  | ["pos"] => some .pos
+  | ["size"] => some .size
+  | _ => none
+
+/-- the input both sides build from (seed, index) -/
+def genByte (seed i : Nat) : UInt8 :=
+  let h := ((i / 2 + seed) * 2654435761 / 65536) % 65536
+  if h % 3 == 0 then (if i % 2 == 1 then UInt8.ofNat ((h / 3) % 6) else 0)
+  else if i % 2 == 0 then UInt8.ofNat (h / 256) else UInt8.ofNat (h % 256)
+
+def genInput (seed n : Nat) : Bytes := (List.range n).map (genByte seed)
+
+def digestGo (i s : Nat) : Bytes → Nat
+  | [] => s
+  | x :: r => digestGo (i + 1) ((s + (i + 1) * x.toNat) % 1000003) r
+
+def digest (b : Bytes) : String := s!"{b.length}:{digestGo 0 0 b}"
+
+/-- `fault = true`: the source ends with a non-EOF error -/
+def showOutF (fault : Bool) : Out → String
+  | .unit => "unit"
+  | .num n => s!"num:{n}"
+  | .int i => s!"int:{i}"
+  | .data b => s!"data:{digest b}"
+  | .nums l => s!"nums:{natsToString l}"
+  | .short b => (if fault then "fshort:" else "short:") ++ digest b
+  | .eof => if fault then "fault" else "eof"
+
+/-- model of the parser on the source ending at `k`: output and cursor after each op -/
+def runFault (o : Oracle) (flen : Nat) (fault : Bool) : P → List Op → List String
+  | _, [] => []
+  | p, op :: ops =>
+    let r := faultStep o flen p op
+    s!"{showOutF fault r.2}@{r.1.cursor}" :: runFault o flen fault r.1 ops
+
+/-- the property on the complete input: outputs of the byte view up to the first operation that
+needs a byte `≥ k` (or fails on the complete input anyway), which must be an error -/
+def runNeed (input : Bytes) (k : Nat) : Nat → List Op → List String
+  | _, [] => []
+  | c, op :: ops =>
+    if k < needEnd input c op then ["ERR"]
+    else
+      let r := specStep input c op
+      if isErr r.2 then ["ERR"] else s!"{showOutF false r.2}@{r.1}" :: runNeed input k r.1 ops
+
+@[noinline] def runPops (input : Bytes) (fault : Bool) (chunks : List Nat) (ops : List Op) (ks : List Nat) : String :=
+  "|".intercalate (ks.map fun k =>
+    ";".intercalate (runFault (mkOracle chunks) input.length (fault && k < input.length) (initAt input k) ops))
+
+@[noinline] def runPneed (input : Bytes) (ops : List Op) (ks : List Nat) : String :=
+  "|".intercalate (ks.map fun k => ";".intercalate (runNeed input k 0 ops))
+
 def prefixes : List String := ["faults."]
 
 def handle (op : String) (fs : List (String × String)) : String :=
@@ -105,6 +180,32 @@ def handle (op : String) (fs : List (String × String)) : String :=
     match (getField fs "lastend").bind String.toNat? with
     | some le => runExpect le ks
     | none => "bad-case"
+  else if op == "faults.count" then
+    -- the property: the count is what the destination took, error iff the file does not fit,
+    -- success only with the whole file; "_" where the API reports no count
+    match (getField fs "total").bind String.toNat? with
+    | some total =>
+      let c := if getField fs "api" == some "CFFPDF" || getField fs "api" == some "CFF" then "_" else "="
+      "".intercalate (ks.map fun k => c ++ (if k < total then "!-" else ".T"))
+    | none => "bad-case"
+  else if op == "faults.cffread" then
+    match (getField fs "len").bind String.toNat? with
+    | some len => "".intercalate (ks.map fun k => if k < len then "E" else "A")
+    | none => "bad-case"
+  else if op == "faults.pops" || op == "faults.pneed" then
+    match (getField fs "inseed").bind String.toNat?, (getField fs "len").bind String.toNat?,
+        (getField fs "chunks").bind parseNatList, getField fs "kind",
+        (getField fs "ops").map (fun s => if s.isEmpty then [] else s.splitOn ";") with
+    | some seed, some len, some chunks, some kind, some opStrs =>
+      match opStrs.mapM parseOp with
+      | none => "bad-op"
+      | some ops =>
+        if !(ops.all fun o => decide o.ok) then "panic"
+        else
+          let input := genInput seed len
+          if op == "faults.pops" then runPops input (kind == "fault") chunks ops ks
+          else runPneed input ops ks
+    | _, _, _, _, _ => "bad-case"
   else if op == "faults.tail" then
     -- the model: the directory is readable and every table is complete, so the readers accept,
     -- except the stream that fails (non-EOF) before its end: `io.ReadAll` returns that error
